@@ -137,6 +137,10 @@ func H_C17_step() {
 	name := c17names[ni]
 	oi := vChoice("owner", 3)
 	owner := append(net.IP{}, c17addrs[oi]...)
+	if vChoice("ownerform", 2) == 1 {
+		// the same IPv4 address in its 16-byte form (what net.ParseIP returns): addresses are compared as addresses
+		owner = net.IP{0, 0, 0, 0, 0, 0, 0, 0, 0, 0, 0xff, 0xff, owner[0], owner[1], owner[2], owner[3]}
+	}
 	// a result handed out earlier must not change under later updates
 	earlier, _, qerr := s.QueryName(name)
 	var snapshot []int
@@ -191,6 +195,7 @@ func H_C17_step() {
 			}
 		} else {
 			vCheck(err != nil, "query/inactive-or-missing-name-not-found")
+			vCheck(len(got) == 0, "query/no-owners-handed-out-with-an-error")
 		}
 	case 2: // release
 		err := s.ReleaseName(name, owner)
